@@ -198,7 +198,7 @@ def r3_4(ctx):
 
 
 def r3_5(ctx):
-    memo_rule(ctx, "R3.5", ["style", "console", "segment", "color"], 8)
+    memo_rule(ctx, "R3.5", ["style", "console", "segment", "color", "palette"], 8)
 
 
 def r3_6(ctx):
